@@ -3,6 +3,8 @@ From Coq Require Import ZArith List Bool String Arith.
 From Valida Require Import Taint.
 From Valida.Gen Require Import ParsersGen.
 From Valida.Proofs Require Import TaintProof.
+From Valida Require Import Py Lang Defs Cond Dsl Path Cast Str SpecDefs RuleDefs Rule Spec SpecIO Eq Inst RunSpec.
+From Valida.Proofs Require Import C14Proof C16ReparseProof.
 Import ListNotations.
 Local Open Scope string_scope.
 Local Open Scope list_scope.
@@ -55,3 +57,46 @@ Proof. exact unsafe_store. Qed.
 Print Assumptions C16_parser_inventory. Print Assumptions C16_parsers_accepted.
 Print Assumptions C16_analysis_sound. Print Assumptions C16_parsers_leave_the_spec_alone.
 Print Assumptions C16_rejects_in_place_parser.
+
+(* ---- re-parsing gives an equal object ----
+   The parsers are functions of the spec (which, by the theorems above, the first parse left as it was); what has to be shown
+   is that the object they build is == to itself under the library's __eq__ (Eq.v), which holds because parsing a
+   well-formed spec (mapping keys pairwise distinct, as in every Python dict) yields well-formed objects whose data-path
+   arguments can be built.  Without well-formedness it is false on the model (C16ReparseProof.C16_reparse_cond_counterexample:
+   a "dict" with the keys 1 and True), which no Python program can construct. *)
+Theorem C16_reparse_condition : forall spec tm c tm' c', wf_val spec = true ->
+  cond1_from_spec T X spec = Ok (tm, c) -> cond1_from_spec T X spec = Ok (tm', c') ->
+  cond1_eqb T c' c = true.
+Proof. exact C16_reparse_cond. Qed.
+
+Theorem C16_reparse_part_spec : forall spec d t p b d' t' p' b', wf_val spec = true ->
+  dict_of_val spec = Ok d -> part_spec_parse T X d = Ok t -> mk_part T idlit t = Ok (p, b) ->
+  dict_of_val spec = Ok d' -> part_spec_parse T X d' = Ok t' -> mk_part T idlit t' = Ok (p', b') ->
+  part_eqb p' p = true.
+Proof. exact C16_reparse_part_entry. Qed.
+
+Theorem C16_reparse_path_spec : forall spec t p t' p', wf_val spec = true ->
+  path_from_spec T X spec = Ok (inl t) -> mk_path T idlit t = Ok p ->
+  path_from_spec T X spec = Ok (inl t') -> mk_path T idlit t' = Ok p' ->
+  path_eqb p' p = true.
+Proof. exact C16_reparse_path. Qed.
+
+Theorem C16_reparse_part_spec_list : forall l t p t' p', wf_val (VList l) = true ->
+  from_part_specs T X l = Ok t -> mk_path T idlit t = Ok p ->
+  from_part_specs T X l = Ok t' -> mk_path T idlit t' = Ok p' ->
+  path_eqb p' p = true.
+Proof. exact C16_reparse_part_specs. Qed.
+
+Theorem C16_reparse_rule_spec : forall spec rt ex r rt' ex' r', wf_val spec = true ->
+  rule_from_spec T X spec = Ok (rt, ex) -> mk_rule T rt = Ok r ->
+  rule_from_spec T X spec = Ok (rt', ex') -> mk_rule T rt' = Ok r' ->
+  rule_eqb T r' r (rx_cast_given ex') (rx_cast_given ex) = true.
+Proof. exact C16_reparse_rule. Qed.
+
+(* parsing preserves well-formedness (what the above rests on) *)
+Theorem C16_parsed_condition_well_formed : forall spec tm c, wf_val spec = true ->
+  cond1_from_spec T X spec = Ok (tm, c) -> cond1_ok wf_val T c /\ path_args_buildable T c.
+Proof. exact cond_from_spec_ok. Qed.
+
+Print Assumptions C16_reparse_condition. Print Assumptions C16_reparse_part_spec. Print Assumptions C16_reparse_path_spec.
+Print Assumptions C16_reparse_part_spec_list. Print Assumptions C16_reparse_rule_spec. Print Assumptions C16_parsed_condition_well_formed.
